@@ -81,10 +81,21 @@ pub fn fmt_loads(loads: &[memchr::verif::LoadRec], min_width: usize) -> (String,
             v.push((l.region, l.off, l.width, l.aligned));
         }
     }
-    v.sort();
     if v.is_empty() {
         return ("-".to_string(), bad);
     }
+    if v.len() > 512 {
+        // order-independent digest, mirrors `loadHash` in Driver/Util.lean
+        let mut h: u64 = 0;
+        for &(r, o, w, a) in v.iter() {
+            let r = if r == usize::MAX { u64::MAX } else { r as u64 };
+            let x = r.wrapping_mul(1000003).wrapping_add(o as u64);
+            let y = x.wrapping_mul(1000003).wrapping_add((w as u64) * 2 + if a { 1 } else { 0 });
+            h = h.wrapping_add(y.wrapping_mul(0x9E3779B97F4A7C15).wrapping_add(0x7F4A7C15));
+        }
+        return (format!("n{}h{}", v.len(), h), bad);
+    }
+    v.sort();
     let s: Vec<String> = v
         .iter()
         .map(|&(r, o, w, a)| {
